@@ -378,6 +378,11 @@ func (tt *typeTab) wf(t types.Type, v Term, al Term) Term {
 		}
 		return True
 	case *types.Pointer, *types.Map, *types.Chan:
+		if tt.vc.typedPtrs {
+			if ts, ok := tt.tyStart(t, v); ok {
+				return And(Term{app("wfptr", v, al), SBool}, ts)
+			}
+		}
 		return Term{app("wfptr", v, al), SBool}
 	case *types.Slice:
 		return Term{app("wfslice", v, al), SBool}
@@ -404,4 +409,29 @@ func (tt *typeTab) wf(t types.Type, v Term, al Term) Term {
 		return True
 	}
 	return True
+}
+
+// tyStart: "v is nil or points at the start of an instance of its struct type".  Distinct
+// instances of one struct type never overlap (a struct cannot contain itself by value, and
+// unsafe is outside the model), so two starts in one object are at least cells(T) apart.
+func (tt *typeTab) tyStart(t types.Type, v Term) (Term, bool) {
+	pt, ok := t.Underlying().(*types.Pointer)
+	if !ok {
+		return Term{}, false
+	}
+	st, ok := pt.Elem().Underlying().(*types.Struct)
+	if !ok {
+		return Term{}, false
+	}
+	n := tt.cells(st)
+	if n < 2 {
+		return Term{}, false
+	}
+	fn := "tystart_" + tt.kind(t)
+	if !tt.vc.heapDecl["fn:"+fn] {
+		tt.vc.heapDecl["fn:"+fn] = true
+		tt.vc.cmd("(declare-fun " + fn + " (Int Int) Bool)")
+		tt.vc.cmd(fmt.Sprintf("(assert (forall ((o Int) (a Int) (b Int)) (! (=> (and (%s o a) (%s o b) (< a b)) (<= (+ a %d) b)) :pattern ((%s o a) (%s o b)))))", fn, fn, n, fn, fn))
+	}
+	return Or(Eq(PObj(v), IntLit(0)), Term{app(fn, PObj(v), POff(v)), SBool}), true
 }
